@@ -441,6 +441,8 @@ AlphaPh      == {"P","q","w","_"}
 InBlock      == <<"s","a","H","a","s">>          \* a block comment around the hole: nesting witnesses that DuckDB can parse
 AfterTag9    == <<"D","w","9","D","H">>          \* after a dollar-quote opener whose tag ends in a digit
 AfterTagU    == <<"D","U","W","D","H">>          \* after a dollar-quote opener whose tag starts with an underscore
+AfterEsc     == <<"E","q","k","q","w","q","H">>  \* after an E-string that contains a backslash-escaped quote
+AfterDolQ    == <<"D","D","q","D","D","H">>      \* after a dollar-quoted string holding one quote character
 AfterIdent   == <<"d","w","d","H">>              \* after the quoted identifier "z": repeats, case variants
 AfterLit     == <<"q","w","q","H">>              \* after the literal 'z'
 AfterUTag    == <<"D","u","D","H">>              \* after a dollar-quote opener with a non-ASCII tag
@@ -457,6 +459,8 @@ JobsQuick == << [tpl |-> L, alpha |-> AlphaAll,     max |-> 3],
                 [tpl |-> AfterTag9, alpha |-> {"D","9","w","q"}, max |-> 4],      \* $z1$ ... : digits in a dollar tag
                 [tpl |-> L, alpha |-> {"D","9","U","W","q"}, max |-> 5],
                 [tpl |-> AfterTagU, alpha |-> {"D","U","W","m"}, max |-> 6],       \* $_Z$ ... with NO other quote character
+                [tpl |-> AfterEsc,  alpha |-> {"m","w","s","a","n"}, max |-> 4],    \* E'\'z' then a real comment
+                [tpl |-> AfterDolQ, alpha |-> {"m","w","s","a","n"}, max |-> 4],    \* $$'$$ then a real comment
                 [tpl |-> AfterIdent, alpha |-> {"d","w","W","_"}, max |-> 4],    \* "z" then the same / case-different identifier
                 [tpl |-> AfterLit,   alpha |-> {"q","w","W","_"}, max |-> 4] >>
 JobsThorough == << [tpl |-> L, alpha |-> AlphaAll,     max |-> 4],
@@ -474,12 +478,14 @@ JobsThorough == << [tpl |-> L, alpha |-> AlphaAll,     max |-> 4],
                    [tpl |-> AfterTag9, alpha |-> {"D","9","w","q","U"}, max |-> 5],
                    [tpl |-> L, alpha |-> {"D","9","U","W","q","w"}, max |-> 6],
                    [tpl |-> AfterTagU, alpha |-> {"D","U","W","m","s","a"}, max |-> 6],
+                   [tpl |-> AfterEsc,  alpha |-> {"m","w","s","a","n","q"}, max |-> 5],
+                   [tpl |-> AfterDolQ, alpha |-> {"m","w","s","a","n","q"}, max |-> 5],
                    [tpl |-> AfterIdent, alpha |-> {"d","w","W","_","q"}, max |-> 6],
                    [tpl |-> AfterLit,   alpha |-> {"q","w","W","_","d"}, max |-> 6] >>
 
 (* C14: statement templates.  The payload (a file-reading table function, a string in table position, *)
 (* a foreign db.table) is fixed; the holes are filled with lexical disguises.                          *)
-MacrosC14 == {"K:with", "K:cte", "K:tagwhere", "K:inj", "K:cmt", "K:trim", "K:as", "K:btag", "K:join", "K:fcpu", "K:subq", "K:subend", "K:sel", "K:one", "K:tagrp", "K:close", "K:tagfrom", "K:tagdbt", "K:end", "K:tagcj", "K:b"}
+MacrosC14 == {"K:cjdb", "K:fsec", "K:cjstar", "K:fstar", "K:tagcpu", "K:with", "K:cte", "K:tagwhere", "K:inj", "K:cmt", "K:trim", "K:as", "K:btag", "K:join", "K:fcpu", "K:subq", "K:subend", "K:sel", "K:one", "K:tagrp", "K:close", "K:tagfrom", "K:tagdbt", "K:end", "K:tagcj", "K:b"}
 PathsC14  == {"F:foreign"}
 TBrp  == <<"K:sel", "H", "K:tagrp", "q", "F:foreign", "q", "K:close">>            \* SELECT <lit> , tag FROM read_parquet( '<file>' )
 TArp  == <<"K:sel", "H", "K:one", "K:tagrp", "q", "F:foreign", "q", "K:close">>   \* SELECT <comment> 1 , tag FROM read_parquet( '<file>' )
@@ -498,6 +504,12 @@ TQcj  == <<"K:sel", "K:one", "K:as", "H", "K:tagcj", "q", "F:foreign", "q", "K:b
 TJoin == <<"K:sel", "K:btag", "H", "K:join", "H", "K:fcpu">>     \* SELECT b.tag FROM allowed.cpu a<ws>JOIN<ws>foreign.cpu b ON true
 TSubq == <<"K:sel", "K:subq", "H", "K:subend">>                  \* SELECT ( SELECT max(tag) FROM<ws>foreign.cpu ) AS t FROM allowed.cpu
 WsAll == {"~", "_", "n"}
+\* comma join whose LATER element is a plain db.measurement of the foreign database (with / without aliases)
+TCj2  == <<"K:sel", "K:cjdb", "H", "K:fsec">>                    \* SELECT s.tag FROM allowed.cpu c ,<ws>foreign.cpu s
+TCj3  == <<"K:sel", "K:cjstar", "H", "K:fstar">>                 \* SELECT * FROM allowed.cpu ,<ws>foreign.cpu
+\* an unqualified measurement: the driver also posts it as a two-request SEQUENCE (owner of database `default`
+\* without header, then the restricted caller with x-arc-database: allowed) on the same handler instance
+TPlain == <<"K:sel", "K:tagcpu", "H">>                           \* SELECT tag FROM cpu<ws>
 \* a CTE named like a measurement; posted with x-arc-database set to the FOREIGN database
 TCte  == <<"K:with", "H", "K:cte">>                              \* WITH<ws>cpu AS ( SELECT 1 AS one ) SELECT tag FROM cpu
 \* a literal holding placeholder-shaped text before a second literal that holds a replacement scan
@@ -523,6 +535,9 @@ JobsC14Quick == << [tpl |-> TBrp,  alpha |-> LitA, max |-> 4],
                    [tpl |-> TDrp,  alpha |-> {"q","k","9"}, max |-> 3],
                    [tpl |-> TAcj,  alpha |-> {"s","a","K:trim","q"}, max |-> 5],
                    [tpl |-> TQcj,  alpha |-> {"d","K:trim","w"}, max |-> 4],
+                   [tpl |-> TCj2,  alpha |-> WsAll, max |-> 2],
+                   [tpl |-> TCj3,  alpha |-> WsAll, max |-> 2],
+                   [tpl |-> TPlain, alpha |-> WsAll, max |-> 1],
                    [tpl |-> TCte,  alpha |-> WsAll, max |-> 2],
                    [tpl |-> TPh,   alpha |-> {"P", "P1", "w"}, max |-> 2],
                    [tpl |-> TJoin, alpha |-> WsAll, max |-> 3],
@@ -545,6 +560,9 @@ JobsC14Thorough == << [tpl |-> TBrp,  alpha |-> LitA \cup {"b", "P"}, max |-> 4]
                       [tpl |-> TDrp,  alpha |-> {"q","k","9","D","w"}, max |-> 4],
                       [tpl |-> TAcj,  alpha |-> {"s","a","K:trim","q","d","m"}, max |-> 5],
                       [tpl |-> TQcj,  alpha |-> {"d","K:trim","w","s","a"}, max |-> 5],
+                      [tpl |-> TCj2,  alpha |-> WsAll \cup {"r"}, max |-> 3],
+                      [tpl |-> TCj3,  alpha |-> WsAll \cup {"r"}, max |-> 3],
+                      [tpl |-> TPlain, alpha |-> WsAll \cup {"r"}, max |-> 2],
                       [tpl |-> TCte,  alpha |-> WsAll \cup {"r"}, max |-> 3],
                       [tpl |-> TPh,   alpha |-> {"P", "P1", "w", "_", "J"}, max |-> 3],
                       [tpl |-> TJoin, alpha |-> WsAll \cup {"r"}, max |-> 4],
